@@ -194,6 +194,37 @@ impl Analysis {
         }
     }
 
+    /// The symbols that are written down at `span`, in the order of their indices. A file that is imported more than once,
+    /// a macro that is invoked more than once and a loop have one copy of their symbols per import, invocation and iteration:
+    /// all of them are written down at the same place.
+    pub fn symbols_written_at(&self, span: Span) -> Vec<(&DefinitionType, &Definition)> {
+        self.definitions
+            .iter()
+            .filter(|(ty, definition)| {
+                matches!(ty, DefinitionType::Symbol(_))
+                    && definition.location.as_ref().map(|l| l.span) == Some(span)
+            })
+            .sorted_by(|a, b| a.0.cmp(b.0))
+            .collect()
+    }
+
+    /// The symbols a request at this position is about: the one that matches the position most narrowly (the one that
+    /// 'go to definition' leads to), together with those of its copies that have an occurrence at this position as well
+    pub fn symbols_at<P: Into<PathBuf>>(
+        &self,
+        path: P,
+        pos: LineCol,
+    ) -> Vec<(&DefinitionType, &Definition)> {
+        let found = self.find_filter(path, pos, |ty| matches!(ty, DefinitionType::Symbol(_)));
+        let written_at = found
+            .first()
+            .map(|(_, definition)| definition.location.as_ref().map(|l| l.span));
+        found
+            .into_iter()
+            .filter(|(_, definition)| Some(definition.location.as_ref().map(|l| l.span)) == written_at)
+            .collect()
+    }
+
     pub fn find<P: Into<PathBuf>>(
         &self,
         path: P,
